@@ -304,9 +304,23 @@ def explore_adaptive(harnesses, levels, budget, nproc=None, chunk=400, hard_cap=
                 if predicted <= budget and li + 1 <= maxlevel.get(label, len(levels)) and (global_budget is None or ran[0] < global_budget) and label not in cut:
                     push(spec, label, li + 1)
 
-    if nproc == 1:
+    def next_job():
+        """Next queued chunk whose (harness, level) has not been abandoned; chunks of abandoned levels are dropped unrun."""
         while queue:
-            part, leftover, args = explore_chunk(heapq.heappop(queue)[2])
+            args = heapq.heappop(queue)[2]
+            key = (args[4], args[1]["level"])
+            if key in partial or args[4] in cut:
+                account(Part(), [], args)
+                continue
+            return args
+        return None
+
+    if nproc == 1:
+        while True:
+            args = next_job()
+            if args is None:
+                break
+            part, leftover, args = explore_chunk(args)
             account(part, leftover, args)
     else:
         ctx = multiprocessing.get_context("fork")
@@ -314,7 +328,10 @@ def explore_adaptive(harnesses, levels, budget, nproc=None, chunk=400, hard_cap=
             pending = []
             while queue or pending:
                 while queue and len(pending) < nproc * 3:
-                    pending.append(pool.apply_async(explore_chunk, (heapq.heappop(queue)[2],)))
+                    job = next_job()
+                    if job is None:
+                        break
+                    pending.append(pool.apply_async(explore_chunk, (job,)))
                 time.sleep(0.002)
                 still = []
                 for r in pending:
